@@ -2020,6 +2020,13 @@ def run_c18(ctx):
 def replay(ctx):
     d = json.load(open(ctx.replay))
     c = d['case']
+    if 'fsm_session' in c:
+        from . import fsmlib
+        v = fsmlib.replay_case(ctx, c)
+        if v != 'ok':
+            print('VIOLATION property=%s replay=%s' % (ctx.pid, ctx.replay))
+            return 1
+        return 0
     kind = c['kind']
     R, C = c['rows'], c['cols']
     col = Collector()
